@@ -8,4 +8,4 @@ CONSTANTS
   Dev = {}
   MaxMsgs = 2
 SYMMETRY Perms
-INVARIANTS TypeOK ExclusiveHold CleanHandoff IdleIsClean Bounded NoLeak MapSound BeliefSound HoldsOnlyInTx
+INVARIANTS TypeOK ExclusiveHold CleanHandoff IdleIsClean Bounded NoLeak MapSound MapComplete BeliefSound HoldsOnlyInTx
